@@ -108,6 +108,11 @@ theorem rsOf_hide (ws : WS) (b : Bool) :
     rsOf ({ ws with screen := { ws.screen with hideCursor := b } } : WS) = rsOf ws := by
   simp only [rsOf, Screen.cur]
 
+/-- the receiver's active grid is a canvas on which exactly the lines of `S` are drawn, cursor included: the
+invariant a diff against `S` can start from (C02) -/
+def DrawnAs (q : Parser) (S : Screen) : Prop :=
+  RowsInv S.cur.rows S.cur.size.cols S.cur.rows.length false S.cur.pos (rsOf q.ws)
+
 /-- **C01, `contents_formatted`**: processing the bytes of `S.contents_formatted()` on any receiver that is
 ready, whose active grid is a canvas of the same size and is not scrolled back, leaves the receiver
 showing `S` — cells, wrap flags, cursor, cursor visibility, pen — whatever it showed before -/
@@ -116,7 +121,7 @@ theorem contents_formatted_reproduces (hW : WOk W) {q : Parser} (hq : RecvOk W q
     (hsz : S.cur.size = (rsOf q.ws).g.size) :
     ∃ bytes q', S.contentsFormatted = .ok bytes ∧ q.process W cb bytes = .ok q' ∧ Ready q' ∧
       Shows q'.screen S ∧ q'.ws.events = q.ws.events ∧
-      C10.inputModes q'.screen = C10.inputModes q.screen := by
+      C10.inputModes q'.screen = C10.inputModes q.screen ∧ DrawnAs q' S := by
   -- cursor visibility
   obtain ⟨q1, e1, w1, r1⟩ := C10.process_hideCursor W cb q S.hideCursor hq.ready
   have hrs1 : rsOf q1.ws = rsOf q.ws := by rw [w1]; exact rsOf_hide _ _
@@ -134,7 +139,14 @@ theorem contents_formatted_reproduces (hW : WOk W) {q : Parser} (hq : RecvOk W q
   obtain ⟨q2, e2, w2, r2⟩ := hem2
   have hcar : (q.vte.advance (Term.hideCursor S.hideCursor)).1.carry = [] := by
     rw [← process_vte W cb e1]; exact r1.2
-  refine ⟨Term.hideCursor S.hideCursor ++ gb ++ S.attrs.writeEscapeCodeDiff pa, q2, ?_, ?_, r2, ?_, ?_, ?_⟩
+  refine ⟨Term.hideCursor S.hideCursor ++ gb ++ S.attrs.writeEscapeCodeDiff pa, q2, ?_, ?_, r2, ?_, ?_, ?_, ?_⟩
+  rotate_right
+  · -- the drawn canvas
+    show RowsInv _ _ _ false _ (rsOf q2.ws)
+    rw [w2, rsOf_withRS]
+    have := rowsInv_frame hinvf { Rf with pen := S.attrs } rfl rfl rfl rfl rfl
+    rw [show ({ Rf with pen := S.attrs } : RS).g.pos = S.cur.pos from hinvf.pos] at this
+    exact this
   · simp only [Screen.contentsFormatted, Screen.writeContentsFormatted, eg, ok_bind, pure_eq_ok]
   · rw [List.append_assoc, C04.process_append W cb q _ _ hq.ready.2 hcar, e1]
     exact e2
@@ -176,8 +188,9 @@ theorem state_formatted_reproduces (hW : WOk W) {q : Parser} (hq : RecvOk W q)
     (hqoff : (rsOf q.ws).g.scrollbackOffset = 0) (hm : q.screen.mouseMode = .none) (he : q.screen.mouseEnc = .default)
     (S : Screen) (hS : SrcScreen W S) (hsz : S.cur.size = (rsOf q.ws).g.size) :
     ∃ bytes q', S.stateFormatted = .ok bytes ∧ q.process W cb bytes = .ok q' ∧ Ready q' ∧
-      Shows q'.screen S ∧ C10.inputModes q'.screen = C10.inputModes S ∧ q'.ws.events = q.ws.events := by
-  obtain ⟨cbytes, q1, ec, e1, r1, hsh, hev, hmodes⟩ := contents_formatted_reproduces (cb := cb) hW hq hqoff S hS hsz
+      Shows q'.screen S ∧ C10.inputModes q'.screen = C10.inputModes S ∧ q'.ws.events = q.ws.events ∧
+      DrawnAs q' S := by
+  obtain ⟨cbytes, q1, ec, e1, r1, hsh, hev, hmodes, hdr⟩ := contents_formatted_reproduces (cb := cb) hW hq hqoff S hS hsz
   have hm1 : q1.ws.screen.mouseMode = .none := by
     have := congrArg C10.InputModes.mouseMode hmodes; exact this.trans hm
   have he1 : q1.ws.screen.mouseEnc = .default := by
@@ -185,7 +198,11 @@ theorem state_formatted_reproduces (hW : WOk W) {q : Parser} (hq : RecvOk W q)
   obtain ⟨q2, e2, w2, r2⟩ := C10.process_input_mode_formatted W cb q1 S r1 hm1 he1
   have hcar : (q.vte.advance cbytes).1.carry = [] := by rw [← process_vte W cb e1]; exact r1.2
   have ec' : S.writeContentsFormatted = .ok cbytes := ec
-  refine ⟨cbytes ++ S.inputModeFormatted, q2, ?_, ?_, r2, ?_, ?_, ?_⟩
+  refine ⟨cbytes ++ S.inputModeFormatted, q2, ?_, ?_, r2, ?_, ?_, ?_, ?_⟩
+  rotate_right
+  · show RowsInv _ _ _ false _ (rsOf q2.ws)
+    have : rsOf q2.ws = rsOf q1.ws := by rw [w2]; rfl
+    rw [this]; exact hdr
   · simp only [Screen.stateFormatted, ec', ok_bind, pure_eq_ok, Screen.inputModeFormatted]
   · rw [C04.process_append W cb q _ _ hq.ready.2 hcar, e1]; exact e2
   · have hs : q2.screen = C10.setInputModes q1.screen (C10.inputModes S) := by
@@ -307,7 +324,7 @@ theorem full_redraw_fresh (hW : WOk W) (S : Screen) (hinv : emitInvB W S = true)
   obtain ⟨hcg, _⟩ := ((inv_iff W S).mp hI).cur
   obtain ⟨q, enew, hq, hqoff, hqsz, hm, he⟩ := new_recvOk W S.cur.size.rows S.cur.size.cols sb hcg.rows_pos hcg.cols_pos
     hcg.rows_u16 hcg.cols_u16
-  obtain ⟨bytes, q', eb, ep, _, hsh, hmodes, hev⟩ := state_formatted_reproduces (cb := cb) hW hq hqoff hm he S hS
+  obtain ⟨bytes, q', eb, ep, _, hsh, hmodes, hev, _⟩ := state_formatted_reproduces (cb := cb) hW hq hqoff hm he S hS
     (by rw [hqsz])
   refine ⟨q, bytes, q', enew, eb, ep, shows_obs hsh hmodes hoff, ?_⟩
   rw [hev]
@@ -390,7 +407,7 @@ theorem full_redraw_fresh_reemit (hW : WOk W) (S : Screen) (hinv : emitInvB W S 
   obtain ⟨hcg, _⟩ := ((inv_iff W S).mp hI).cur
   obtain ⟨q, enew, hq, hqoff, hqsz, hm, he⟩ := new_recvOk W S.cur.size.rows S.cur.size.cols sb hcg.rows_pos hcg.cols_pos
     hcg.rows_u16 hcg.cols_u16
-  obtain ⟨bytes, q', eb, ep, _, hsh, hmodes, hev⟩ := state_formatted_reproduces (cb := cb) hW hq hqoff hm he S hS
+  obtain ⟨bytes, q', eb, ep, _, hsh, hmodes, hev, _⟩ := state_formatted_reproduces (cb := cb) hW hq hqoff hm he S hS
     (by rw [hqsz])
   obtain ⟨r1, r2⟩ := reemit_identical hsh hmodes hoff
   refine ⟨q, bytes, q', enew, eb, ep, shows_obs hsh hmodes hoff, ?_, by rw [r2]; exact eb, r1⟩
